@@ -214,50 +214,50 @@ Lemma legacy_escape_refuted :
   /\ read_str_body false (escape_legacy [20013; 45] ++ [34]) [] = ROk ([20013; 45], []).
 Proof. vm_compute. repeat split; reflexivity. Qed.
 
-Definition w_regex_backslash : case := Case 0 pc_default (VRegex [92; 115]) [] [].
-Definition w_regex_quote : case := Case 0 pc_default (VRegex [97; 34; 98]) [] [].
+Definition w_regex_backslash : case := Case 0 pc_default lim_nil (VRegex [92; 115]) [] [].
+Definition w_regex_quote : case := Case 0 pc_default lim_nil (VRegex [97; 34; 98]) [] [].
 Lemma regex_refuted : violates w_regex_backslash /\ violates w_regex_quote
   /\ model w_regex_backslash = OOk [35; 34; 92; 92; 115; 34] 1 (VRegex [92; 92; 115]) 0 true.
 Proof. vm_compute. repeat split; reflexivity. Qed.
 
-Definition w_int_limit : case := Case 0 pc_default (VInt (10 ^ 4300)) [] [].
+Definition w_int_limit : case := Case 0 pc_default lim_nil (VInt (10 ^ 4300)) [] [].
 Lemma int_limit_refuted : violates w_int_limit /\ model w_int_limit = OPrintErr 2.
 Proof. vm_compute. split; reflexivity. Qed.
 
-Definition w_bytes_quote : case := Case 0 pc_default (VBytes [34]) [] [].
+Definition w_bytes_quote : case := Case 0 pc_default lim_nil (VBytes [34]) [] [].
 Lemma bytes_quote_refuted : violates w_bytes_quote.
 Proof. vm_compute. reflexivity. Qed.
 
-Definition w_imag_exp : case := Case 0 pc_default (VImag [49; 69; 43; 49; 54]) [] [].
-Definition w_imag_negzero : case := Case 0 pc_default (VImag [45; 48]) [([106; 45; 48], [48])] [].
+Definition w_imag_exp : case := Case 0 pc_default lim_nil (VImag [49; 69; 43; 49; 54]) [] [].
+Definition w_imag_negzero : case := Case 0 pc_default lim_nil (VImag [45; 48]) [([106; 45; 48], [48])] [].
 Lemma imag_refuted : violates w_imag_exp /\ violates w_imag_negzero.
 Proof. vm_compute. split; reflexivity. Qed.
 
-Definition w_kw_space : case := Case 0 pc_default (VKw None [97; 32; 98]) [] [].
-Definition w_sym_empty : case := Case 0 pc_default (VSym None [] None) [] [].
-Definition w_sym_digit : case := Case 0 pc_default (VSym None [49; 97] None) [] [].
-Definition w_sym_nil : case := Case 0 pc_default (VSym None [110; 105; 108] None) [] [].
-Definition w_sym_gensym : case := Case 0 pc_default (VSym None [97; 35] None) [] [].
-Definition w_kw_slash : case := Case 0 pc_default (VKw None [97; 47; 98]) [] [].
+Definition w_kw_space : case := Case 0 pc_default lim_nil (VKw None [97; 32; 98]) [] [].
+Definition w_sym_empty : case := Case 0 pc_default lim_nil (VSym None [] None) [] [].
+Definition w_sym_digit : case := Case 0 pc_default lim_nil (VSym None [49; 97] None) [] [].
+Definition w_sym_nil : case := Case 0 pc_default lim_nil (VSym None [110; 105; 108] None) [] [].
+Definition w_sym_gensym : case := Case 0 pc_default lim_nil (VSym None [97; 35] None) [] [].
+Definition w_kw_slash : case := Case 0 pc_default lim_nil (VKw None [97; 47; 98]) [] [].
 Lemma names_refuted :
   violates w_kw_space /\ violates w_sym_empty /\ violates w_sym_digit /\ violates w_sym_nil
   /\ violates w_sym_gensym /\ violates w_kw_slash.
 Proof. vm_compute. repeat split; reflexivity. Qed.
 
-Definition w_dec_nan : case := Case 0 (PC true false false true) (VDecS FNaN) [] [].
+Definition w_dec_nan : case := Case 0 (PC true false false true) lim_nil (VDecS FNaN) [] [].
 Lemma dec_special_refuted : violates w_dec_nan.
 Proof. vm_compute. reflexivity. Qed.
 
 Definition w_nsmap_nil : case :=
-  Case 0 (PC false false true true) (VMap false [(VSym (Some [120]) [110; 105; 108] None, VInt 1)] None) [] [].
+  Case 0 (PC false false true true) lim_nil (VMap false [(VSym (Some [120]) [110; 105; 108] None, VInt 1)] None) [] [].
 Lemma nsmap_refuted : violates w_nsmap_nil.
 Proof. vm_compute. reflexivity. Qed.
 
-Definition w_meta_reprint : case := Case 0 (PC false true false true) (VSeq KVec [] None) [] [].
+Definition w_meta_reprint : case := Case 0 (PC false true false true) lim_nil (VSeq KVec [] None) [] [].
 Lemma meta_reprint_refuted : violates w_meta_reprint.
 Proof. vm_compute. reflexivity. Qed.
 
-Definition w_eofthrow : case := Case 1 pc_default (VKw None kw_eofthrow) [] [].
+Definition w_eofthrow : case := Case 1 pc_default lim_nil (VKw None kw_eofthrow) [] [].
 Lemma eofthrow_refuted : violates w_eofthrow /\ model w_eofthrow = OReadErr (58 :: kw_eofthrow) 2.
 Proof. vm_compute. split; reflexivity. Qed.
 
@@ -280,7 +280,7 @@ Qed.
 Lemma print_deterministic_model : forall c,
   match model c with OOk _ _ _ _ det => det = true | _ => True end.
 Proof.
-  intros [via pc v orc badre]. unfold model. destruct (vexists long_int v); [exact I|].
+  intros [via pc lim v orc badre]. unfold model. destruct (vexists long_int v); [exact I|].
   destruct (read_text _ _ _ _ _ _ _) as [[|b r]| |]; try exact I.
   destruct ((via =? 1) && value_eqb false b (VKw None kw_eofthrow)); [exact I|reflexivity].
 Qed.
